@@ -12,7 +12,9 @@ torch.set_num_threads(1)
 import gpytorch  # noqa: E402
 import linear_operator  # noqa: E402
 
-REPO = os.path.realpath("/repo")
+# VERIF_REPO: development aid only (run the checks against a scratch worktree carrying a seeded change without touching /repo,
+# which other running checks import); every registered MANIFEST command runs against /repo itself.
+REPO = os.path.realpath(os.environ.get("VERIF_REPO") or "/repo")
 assert os.path.realpath(gpytorch.__file__).startswith(REPO + os.sep), (
     "checks must import gpytorch from /repo's working tree, got " + gpytorch.__file__
 )
